@@ -276,6 +276,10 @@ def main(tier, replay):
             for i in range(12 if tier == "quick" else 200):
                 n = [0, 30, 9000, 70000, 200000, 1000000][i % 6]
                 hangup_case(ctx, mode, cmd, "org.example.a", n, 0.0 if i % 2 else 0.4, svcs)
+        # a long session in resolver mode (one service connection per request) against a service
+        # that serves at most 6 connections at a time: whatever the bridge no longer needs it
+        # has to let go of, or the 7th call finds no worker
+        long_sessions(ctx, varlink, vh, tmp, 60 if tier == "quick" else 600)
         if std.poll() is not None:
             ctx.inconc({"standard service died": std.returncode})
         return ctx.finish(60 if tier == "quick" else 3000)
@@ -428,6 +432,51 @@ def case(ctx, mode, cmd, seq, beh, pay, same_write, table, resolver, std_addr, s
             ctx.sample(dict(desc, exit=rc, frames=len(got_v)))
     finally:
         b.kill()
+
+
+def long_sessions(ctx, varlink, vh, tmp, ncalls):
+    cap_addr = "unix:" + os.path.join(tmp, "cap")
+    e = vlib.base_env()
+    e["VH_PROCESS_SERVICE"] = "1"
+    e["VH_MAX_WORKERS"] = "6"
+    capsvc = subprocess.Popen([vh, "serve", cap_addr], env=e, stdout=subprocess.DEVNULL, stderr=subprocess.DEVNULL)
+    res2 = None
+    try:
+        t0 = time.time()
+        while not os.path.exists(cap_addr[5:]) and time.time() - t0 < 10:
+            time.sleep(0.01)
+        res2 = fakesvc.FakeService("unix", fakesvc.resolver_handler({"org.verif.t": cap_addr, "org.verif.gen": cap_addr}), path=os.path.join(tmp, "resolver2"))
+        b = Bridge([varlink, "-R", res2.address, "bridge"])
+        ctx.case(("resolver", "long-session", ncalls))
+        ctx.count("long_resolver_sessions")
+        for i in range(ncalls):
+            if i % 5 == 4:
+                req = {"method": "org.verif.gen.Add", "parameters": {"a": i, "b": 1, "token": "L%d" % i}}
+            else:
+                req = {"method": "org.verif.t.Echo", "parameters": {"token": "L%d" % i}}
+            b.write(json.dumps(req).encode() + b"\0")
+            frames = b.read_frames(1, timeout=15)
+            ctx.count("reply_frames_observed", len(frames))
+            ok = False
+            if frames:
+                try:
+                    ok = ("L%d" % i) in json.dumps(json.loads(frames[0].decode()))
+                except ValueError:
+                    ok = False
+            if not ok:
+                ctx.violation("c18:resolver:long-session-call-unanswered", {"engine": "c18", "mode": "resolver", "behaviour": "long-session", "call_number": i + 1, "service_max_connections": 6,
+                              "message": "call #%d of a one-at-a-time session got %s (the service serves at most 6 connections at a time; a direct client can make any number of calls)" % (i + 1, ("reply %r" % frames[0][:200]) if frames else "no reply within 15 s"),
+                              "stderr": b.err.decode("utf-8", "replace")[-300:]})
+                b.kill()
+                return
+        rc, _left = b.close_and_wait()
+        if rc != 0:
+            ctx.violation("c18:resolver:abnormal-exit:%s:long-session" % ("hang" if rc is None else "exit%d" % rc), {"engine": "c18", "mode": "resolver", "behaviour": "long-session", "message": "exit status %r after %d calls" % (rc, ncalls)})
+    finally:
+        capsvc.kill()
+        capsvc.wait()
+        if res2 is not None:
+            res2.stop()
 
 
 def hangup_case(ctx, mode, cmd, name, n, read_delay, svcs):
